@@ -49,23 +49,39 @@ func runHarness(repo, verif, pkg, run string, env []string, timeout time.Duratio
 
 // runKnownFindings re-runs the witnesses of the known findings of a property.
 func runKnownFindings(repo, verif, prop string, known []KnownFinding, tier string) (lines []string, newViol []string) {
+	// one go test invocation per harness package
+	byPkg := map[string][]string{}
 	for _, k := range known {
 		if k.Property != prop || k.Harness == "" {
 			continue
 		}
-		parts := strings.SplitN(k.Harness, ":", 2) // pkg:TestName
+		parts := strings.SplitN(k.Harness, ":", 2)
+		if len(parts) == 2 {
+			byPkg[parts[0]] = append(byPkg[parts[0]], parts[1])
+		}
+	}
+	outs := map[string]string{}
+	for pkg, tests := range byPkg {
+		out, _ := runHarness(repo, verif, pkg, "^("+strings.Join(tests, "|")+")$", nil, 120*time.Second)
+		outs[pkg] = out
+	}
+	for _, k := range known {
+		if k.Property != prop || k.Harness == "" {
+			continue
+		}
+		parts := strings.SplitN(k.Harness, ":", 2)
 		if len(parts) != 2 {
 			continue
 		}
-		out, _ := runHarness(repo, verif, parts[0], "^"+parts[1]+"$", nil, 60*time.Second)
-		fails := strings.Contains(out, "WITNESS-FAILS "+k.ID)
-		passes := strings.Contains(out, "WITNESS-PASSES "+k.ID)
+		out := outs[parts[0]]
+		fails := strings.Contains(out, "WITNESS-FAILS "+k.ID+" ")
+		passes := strings.Contains(out, "WITNESS-PASSES "+k.ID+" ")
 		switch k.Status {
 		case "open":
 			if fails {
 				lines = append(lines, fmt.Sprintf("KNOWN-FINDING: property=%s %s %s", prop, k.ID, k.What))
 			} else if !passes {
-				lines = append(lines, fmt.Sprintf("govc: witness of known finding %s did not run: %s", k.ID, trunc(strings.ReplaceAll(out, "\n", " | "), 400)))
+				lines = append(lines, fmt.Sprintf("govc: witness of known finding %s did not run: %s", k.ID, trunc(strings.ReplaceAll(tail(out, 400), "\n", " | "), 400)))
 			}
 		case "fixed":
 			if fails {
